@@ -39,6 +39,16 @@ The remaining containers as instances of `Dist.Container`, so that they can be R
       comm l               every other `Comm` label alone; `execEnd r _` only when the handler has issued everything
   ghost `fl` = uids issued whose handler has not started (Comm's in-flight set, `|fl| = BarrierME.und`).
 
+* reducing adapter (`Model/Cache.lean`, `Cache.Net`), namespace `YgmVerif.ReduceComm`: the PRODUCT of `Comm` with the
+  system of all ranks `Cache.Net` (one reducing-adapter cache per rank, the partial values in flight, the target
+  container).  `Cache.netStep` is CALLED as it is.  Labels as for counting_set, and
+      user r k v first    `async_reduce(k, v)` called by user code on rank r = `netStep (.user r k v)` (+ `Comm.regcb r`)
+      begin r uid first   the handler of message uid starts on r = `Comm.execBegin r uid` + `netStep (.deliver i)` for the
+                          entry `(r, opOf uid)` of `Net.flight` (a container operation is applied to the target container;
+                          a forwarded partial value re-enters the cache of r: `cache_reduce` in handler context)
+  Joint guards: user code runs outside `barrier()` or inside a handler; `barrier()` is entered and a handler returns
+  only with the container calls it made completed (ghost `hb` = depth of the call stack when the handler started).
+
 Executable, core Lean only.
 -/
 namespace YgmVerif.ContainersComm
@@ -279,3 +289,126 @@ def unions (jls : List Label) : List (Nat × Nat) :=
     | _ => none)
 
 end YgmVerif.DSetComm
+
+namespace YgmVerif.ReduceComm
+open YgmVerif
+
+structure Par where
+  n : Nat
+  /-- cache size, reducer, key partitioner, the adapter's next hop -/
+  nc : Cache.NetCfg Nat
+  /-- routing of the communicator -/
+  nh : Nat → Nat → Nat
+  /-- which message each uid carries -/
+  opOf : Nat → Cache.Msg Nat
+
+inductive Label where
+  | comm (l : Comm.Label)
+  | user (r k v : Nat) (first : Bool)
+  | pack (r uid : Nat)
+  | cbpack (r uid : Nat)
+  | ret (r : Nat)
+  | done (r : Nat)
+  | fb (r : Nat)
+  | fe (r : Nat)
+  | begin (r uid : Nat) (first : Bool)
+  deriving Repr
+
+structure St where
+  c : Comm.St
+  net : Cache.Net Nat
+  /-- ghost: depth of the container-call stack of a rank when its running handler started -/
+  hb : Nat → Nat
+
+def init (P : Par) (st0 : List (Nat × Nat)) : St :=
+  { c := Comm.init, net := Cache.Net.init P.n st0, hb := fun _ => 0 }
+
+/-- the adapter cache of rank r -/
+def rankSt (S : St) (r : Nat) : Cache.St Nat := S.net.ranks.getD r Cache.St.init
+
+def allowed : Comm.Label → Bool
+  | .async .. => false
+  | .regcb _ => false
+  | .runcb .. => false
+  | .execBegin .. => false
+  | _ => true
+
+def projC (P : Par) : Label → List Comm.Label
+  | .comm l => [l]
+  | .user r _ _ first => if first then [.regcb r] else []
+  | .pack r uid => [.async r uid (P.nc.dest r (P.opOf uid)) false]
+  | .cbpack r uid => [.runcb r [(uid, P.nc.dest r (P.opOf uid), false)] 1]
+  | .ret _ => []
+  | .done _ => []
+  | .fb r => [.runcb r [] 1]
+  | .fe r => [.runcb r [] 0]
+  | .begin r uid first => .execBegin r uid :: (if first then [.regcb r] else [])
+
+/-- the `Cache.Net` part of a joint label -/
+def netLabel (P : Par) (S : St) : Label → Option (Cache.NetLabel Nat)
+  | .comm _ => none
+  | .user r k v _ => some (.user r k v)
+  | .pack r _ => some (.loc r .pack)
+  | .cbpack r _ => some (.loc r .pack)
+  | .ret r => some (.loc r .ret)
+  | .done r => some (.loc r .done)
+  | .fb r => some (.loc r .fb)
+  | .fe r => some (.loc r .fe)
+  | .begin r uid _ => some (.deliver (S.net.flight.idxOf (r, P.opOf uid)))
+
+/-- a `cache_reduce(k, _)` on rank r registers the callback: r is not the owner and none is registered -/
+def registers (P : Par) (S : St) (r k : Nat) : Bool := !(rankSt S r).reg && !(P.nc.at r).isOwner k
+
+def guard (P : Par) (S : St) : Label → Bool
+  | .comm l => allowed l && (match l with
+      | .enter r => (rankSt S r).stack.isEmpty
+      | .execEnd r _ => (rankSt S r).stack.length == S.hb r
+      | _ => true)
+  | .user r k _ first => decide (r < P.n) && (S.c.b.inBar r == false || S.c.b.busy r) && (first == registers P S r k)
+  | .pack r uid => decide (r < P.n) && (Cache.pending (rankSt S r) == some (P.opOf uid))
+  | .cbpack r uid => decide (r < P.n) && (Cache.pending (rankSt S r) == some (P.opOf uid))
+  | .ret r => decide (r < P.n)
+  | .done r => decide (r < P.n)
+  | .fb r => decide (r < P.n)
+  | .fe r => decide (r < P.n)
+  | .begin r uid first => decide (r < P.n) && S.net.flight.contains (r, P.opOf uid) &&
+      (first == (!(P.opOf uid).toContainer && registers P S r (P.opOf uid).key))
+
+def nextHb (S : St) : Label → (Nat → Nat)
+  | .begin r _ _ => Barrier.upd S.hb r (rankSt S r).stack.length
+  | _ => S.hb
+
+def nStep (P : Par) (S : St) (l : Label) : Option (Cache.Net Nat) :=
+  match netLabel P S l with
+  | none => some S.net
+  | some nl => Cache.netStep P.nc S.net nl
+
+def step (P : Par) (S : St) (l : Label) : Option St :=
+  if guard P S l then
+    match Comm.run P.n P.nh S.c (projC P l), nStep P S l with
+    | some c', some net' => some { c := c', net := net', hb := nextHb S l }
+    | _, _ => none
+  else none
+
+def run (P : Par) (S : St) : List Label → Option St
+  | [] => some S
+  | l :: ls => match step P S l with
+    | none => none
+    | some S' => run P S' ls
+
+/-- the `Cache.Net` history of a joint history (the index of a delivered message is read off the state) -/
+def netLabels (P : Par) : St → List Label → List (Cache.NetLabel Nat)
+  | _, [] => []
+  | S, l :: ls => match step P S l with
+    | none => []
+    | some S' => (match netLabel P S l with
+      | none => []
+      | some nl => [nl]) ++ netLabels P S' ls
+
+/-- the contributions `async_reduce(k, v)` of user code in the history, in order -/
+def contribs (jls : List Label) : List (Nat × Nat) :=
+  jls.filterMap (fun l => match l with
+    | .user _ k v _ => some (k, v)
+    | _ => none)
+
+end YgmVerif.ReduceComm
